@@ -27,6 +27,7 @@ type FuncResult struct {
 	Ctx   *VCtx
 	Secs  float64
 	Notes []string
+	Exec  *Exec
 }
 
 // verifyFunctions runs the executor and the solvers for the given function keys.
@@ -49,6 +50,7 @@ func verifyFunctions(P *Program, C *Contracts, keys []string, opt solveOpts, fil
 		ex := NewExec(P, C, fn)
 		obls, err := ex.Verify()
 		fr.Ctx = ex.ctx
+		fr.Exec = ex
 		fr.Err = err
 		if err != nil {
 			continue
@@ -115,7 +117,7 @@ func cmdVerify(args []string) int {
 	}
 	var keys []string
 	for k, fc := range C.Funcs {
-		if fc.Trusted || fc.NoBody || strings.HasPrefix(k, "iface:") {
+		if fc.Trusted || fc.NoBody || strings.HasPrefix(k, "iface:") || strings.HasPrefix(k, "fnparam:") {
 			continue
 		}
 		if len(pats) == 0 {
@@ -195,3 +197,387 @@ func firstLines(s string, n int) string {
 }
 
 var _ = json.Marshal
+
+// ---------------------------------------------------------------------------------
+// check --property Cxx
+
+type evidence struct {
+	PropertyID  string                 `json:"property_id"`
+	Tier        string                 `json:"tier"`
+	Seed        int                    `json:"seed"`
+	Level       string                 `json:"level"`
+	Coverage    map[string]interface{} `json:"coverage"`
+	Assumptions []string               `json:"assumptions"`
+	WallS       float64                `json:"wall_s"`
+	Violations  int                    `json:"violations"`
+}
+
+func hasProp(ps []string, p string) bool {
+	for _, x := range ps {
+		if x == p {
+			return true
+		}
+	}
+	return false
+}
+
+func contractHasProp(fc *FuncContract, p string) bool {
+	if hasProp(fc.Props, p) {
+		return true
+	}
+	for _, cl := range fc.Requires {
+		if hasProp(cl.Props, p) {
+			return true
+		}
+	}
+	for _, cl := range fc.Ensures {
+		if hasProp(cl.Props, p) {
+			return true
+		}
+	}
+	for _, sa := range fc.Asserts {
+		if hasProp(sa.Clause.Props, p) {
+			return true
+		}
+	}
+	for _, ls := range fc.Loops {
+		for _, cl := range ls.Invariants {
+			if hasProp(cl.Props, p) {
+				return true
+			}
+		}
+	}
+	return false
+}
+
+func loadKnownFindings(path string) ([]*KnownFinding, error) {
+	b, err := os.ReadFile(path)
+	if err != nil {
+		if os.IsNotExist(err) {
+			return nil, nil
+		}
+		return nil, err
+	}
+	var out []*KnownFinding
+	for i, ln := range strings.Split(string(b), "\n") {
+		ln = strings.TrimSpace(ln)
+		if ln == "" || strings.HasPrefix(ln, "#") {
+			continue
+		}
+		var k KnownFinding
+		if err := json.Unmarshal([]byte(ln), &k); err != nil {
+			return nil, fmt.Errorf("%s:%d: %v", path, i+1, err)
+		}
+		out = append(out, &k)
+	}
+	return out, nil
+}
+
+func cmdCheck(args []string) int {
+	repo := "/repo"
+	mirror := "/verif/contracts"
+	prop := ""
+	tier := os.Getenv("VERIF_TIER")
+	if tier == "" {
+		tier = "quick"
+	}
+	evPath := ""
+	kfPath := "/verif/known-findings.jsonl"
+	replayDir := "/verif/replays"
+	noReplay := false
+	for i := 0; i < len(args); i++ {
+		switch args[i] {
+		case "--repo":
+			i++
+			repo = args[i]
+		case "--contracts":
+			i++
+			mirror = args[i]
+		case "--property":
+			i++
+			prop = args[i]
+		case "--tier":
+			i++
+			tier = args[i]
+		case "--evidence":
+			i++
+			evPath = args[i]
+		case "--known":
+			i++
+			kfPath = args[i]
+		case "--replay-dir":
+			i++
+			replayDir = args[i]
+		case "--no-replay":
+			noReplay = true
+		}
+	}
+	if prop == "" {
+		fmt.Fprintln(os.Stderr, "ERROR --property required")
+		return 2
+	}
+	if evPath == "" {
+		evPath = "/verif/evidence/" + prop + ".json"
+	}
+	seed := 0
+	fmt.Sscanf(os.Getenv("VERIF_SEED"), "%d", &seed)
+	t0 := time.Now()
+	P, err := LoadProgram(repo)
+	if err != nil {
+		fmt.Println("ERROR", err)
+		return 2
+	}
+	C, err := LoadContracts(repo, mirror)
+	if err != nil {
+		fmt.Println("ERROR", err)
+		return 2
+	}
+	known, err := loadKnownFindings(kfPath)
+	if err != nil {
+		fmt.Println("ERROR", err)
+		return 2
+	}
+	var keys []string
+	for k, fc := range C.Funcs {
+		if fc.Trusted || fc.NoBody || strings.HasPrefix(k, "iface:") || strings.HasPrefix(k, "fnparam:") {
+			continue
+		}
+		if contractHasProp(fc, prop) {
+			keys = append(keys, k)
+		}
+	}
+	sort.Strings(keys)
+	if len(keys) == 0 {
+		fmt.Printf("ERROR no function under contract for property %s\n", prop)
+		return 2
+	}
+	secs := 15
+	all := false
+	if tier == "thorough" {
+		secs = 60
+		all = true
+	}
+	wd, _ := os.MkdirTemp("/var/tmp", "sonicvc-")
+	defer os.RemoveAll(wd)
+	opt := solveOpts{secs: secs, all: all, workdir: wd, keep: true}
+	filter := func(o *Obligation) bool { return hasProp(o.Props, prop) }
+	res := verifyFunctions(P, C, keys, opt, filter)
+
+	toolErr := false
+	var allObls []*Obligation
+	assumptions := map[string]int{}
+	var fnNames []string
+	backends := map[string]int{}
+	solverSecs := 0.0
+	for _, fr := range res {
+		if fr.Err != nil {
+			fmt.Printf("ERROR %v\n", fr.Err)
+			toolErr = true
+			continue
+		}
+		fnNames = append(fnNames, shortKey(fr.Key))
+		for k, n := range fr.Ctx.assumes {
+			assumptions[k] += n
+		}
+		// vacuity: the precondition is satisfiable and some return is reachable
+		if !vacuityOK(fr, opt) {
+			fmt.Printf("ERROR %s: vacuous contract (precondition unsatisfiable or no reachable return)\n", shortKey(fr.Key))
+			toolErr = true
+		}
+		for _, o := range fr.Obls {
+			allObls = append(allObls, o)
+			backends[o.Backend]++
+			solverSecs += o.Secs
+			if o.Result == "error" || o.Result == "disagree" {
+				fmt.Printf("ERROR %s %s: %s\n", shortKey(o.Fn), o.Name, firstLines(o.Output, 2))
+				toolErr = true
+			}
+		}
+	}
+	if floor, ok := C.Expect[prop]; ok && len(allObls) < floor {
+		fmt.Printf("ERROR property %s: %d obligations generated, expected at least %d\n", prop, len(allObls), floor)
+		toolErr = true
+	}
+	if len(allObls) == 0 {
+		fmt.Printf("ERROR property %s: no obligations generated\n", prop)
+		toolErr = true
+	}
+	if toolErr {
+		fmt.Printf("UNDECIDED property=%s (tool error; see ERROR lines)\n", prop)
+		return 2
+	}
+	// failed obligations
+	discharged := 0
+	violations := 0
+	var knownHit []string
+	var samples []map[string]interface{}
+	var failedSamples []map[string]interface{}
+	for _, o := range allObls {
+		full := shortKey(o.Fn) + "/" + o.Name
+		if o.Result == "unsat" {
+			discharged++
+			if len(samples) < 6 && o.Backend != "simplifier" {
+				samples = append(samples, map[string]interface{}{"obligation": full, "clause": o.Clause, "backend": o.Backend, "secs": o.Secs, "at": o.Pos})
+			}
+			continue
+		}
+		// known finding?
+		var kf *KnownFinding
+		for _, k := range known {
+			if !k.Fixed && k.Property == prop && k.Obligation == full {
+				kf = k
+			}
+		}
+		if kf != nil {
+			ok := true
+			if kf.Except != "" {
+				ok = verifyUnderExclusion(P, C, o, kf.Except, opt)
+			}
+			if ok {
+				fmt.Printf("KNOWN-FINDING: property=%s %s %s\n", prop, full, kf.What)
+				knownHit = append(knownHit, full)
+				discharged++ // discharged under the recorded exclusion
+				continue
+			}
+		}
+		violations++
+		os.MkdirAll(replayDir+"/"+prop, 0o755)
+		rp := fmt.Sprintf("%s/%s/%s.json", replayDir, prop, sanitize(full))
+		suffix := ""
+		reproduced := false
+		var rep map[string]interface{}
+		if !noReplay && o.Result == "sat" {
+			rep, reproduced = replayObligation(P, C, o, repo)
+		}
+		if !reproduced {
+			suffix = " no-failing-input-found"
+		}
+		writeReplayFile(rp, prop, o, rep, reproduced)
+		fmt.Printf("VIOLATION property=%s replay=%s%s\n", prop, rp, suffix)
+		fmt.Printf("  obligation %s (%s) at %s: %s\n", full, o.Result, o.Pos, o.Clause)
+		failedSamples = append(failedSamples, map[string]interface{}{"obligation": full, "clause": o.Clause, "result": o.Result, "at": o.Pos})
+	}
+	var asm []string
+	for k, n := range assumptions {
+		asm = append(asm, fmt.Sprintf("%s (used %d×)", k, n))
+	}
+	sort.Strings(asm)
+	asm = append(asm, "go/packages+go/types+go/ssa front end and the sonicvc VC generator are trusted; Go semantics as modelled in DESIGN.md §2 (linux/amd64, allocation succeeds, slices well-formed)")
+	for _, k := range knownHit {
+		asm = append(asm, "known finding (obligation discharged only under its recorded exclusion): "+k)
+	}
+	srcs := map[string]bool{}
+	for _, s := range C.Sources {
+		srcs[s] = true
+	}
+	var srcl []string
+	for s := range srcs {
+		srcl = append(srcl, s)
+	}
+	sort.Strings(srcl)
+	level := "proof"
+	if violations > 0 {
+		level = "other"
+	}
+	cov := map[string]interface{}{
+		"obligations":              len(allObls),
+		"discharged":               discharged,
+		"checker_cmd":              "bin/sonicvc check --property " + prop + " --tier " + tier,
+		"trusted_base":             []string{"golang.org/x/tools/go/ssa v0.50.0", "sonicvc VC generator (/verif/vc)", "z3 5.1.0", "z3 4.8.12", "cvc5 1.0.3"},
+		"functions_under_contract": fnNames,
+		"backends":                 backends,
+		"solver_seconds":           solverSecs,
+		"samples":                  samples,
+		"known_findings":           knownHit,
+		"contracts_from":           srcl,
+		"failed":                   failedSamples,
+		"explanation":              "every obligation generated for this property from the SSA of /repo's working tree; obligations = discharged means all were proved unsat by at least one SMT back end",
+	}
+	ev := evidence{PropertyID: prop, Tier: tier, Seed: seed, Level: level, Coverage: cov, Assumptions: asm, WallS: time.Since(t0).Seconds(), Violations: violations}
+	os.MkdirAll("/verif/evidence", 0o755)
+	b, _ := json.MarshalIndent(ev, "", " ")
+	os.WriteFile(evPath, b, 0o644)
+	fmt.Printf("property %s: %d functions, %d obligations, %d discharged, %d violations, %.1fs\n", prop, len(fnNames), len(allObls), discharged, violations, time.Since(t0).Seconds())
+	if violations > 0 {
+		return 1
+	}
+	return 0
+}
+
+// vacuityOK: hyps at (at least one) return point are satisfiable together with its path condition.
+func vacuityOK(fr *FuncResult, opt solveOpts) bool {
+	if fr.Exec == nil || len(fr.Exec.rets) == 0 {
+		return len(fr.Obls) > 0 && fr.Exec != nil && fr.Exec.noReturnOK
+	}
+	for _, r := range fr.Exec.rets {
+		if r.st.pc.IsFalse() {
+			continue
+		}
+		as := append([]*Term{}, fr.Ctx.hyps[:r.nhyps]...)
+		as = append(as, r.st.pc)
+		text, err := Query(ModeInt, as, nil)
+		if err != nil {
+			text, err = Query(ModeBV, as, nil)
+			if err != nil {
+				continue
+			}
+		}
+		fileCounter++
+		f := fmt.Sprintf("%s/vac%05d.smt2", opt.workdir, fileCounter)
+		os.WriteFile(f, []byte(text), 0o644)
+		r, _ := raceSolvers(f, 10, false)
+		os.Remove(f)
+		if r.answer == "sat" {
+			return true
+		}
+	}
+	return false
+}
+
+// verifyUnderExclusion re-verifies the function of o with ¬except assumed and reports whether
+// the obligation of the same name is then discharged.
+func verifyUnderExclusion(P *Program, C *Contracts, o *Obligation, except string, opt solveOpts) bool {
+	fn := P.Funcs[o.Fn]
+	if fn == nil {
+		return false
+	}
+	ex := NewExec(P, C, fn)
+	x, err := ParseSpec("!(" + except + ")")
+	if err != nil {
+		fmt.Println("ERROR known-findings except:", err)
+		return false
+	}
+	ex.extraRequires = append(ex.extraRequires, x)
+	obls, err := ex.Verify()
+	if err != nil {
+		return false
+	}
+	for _, p := range obls {
+		if p.Name == o.Name {
+			prepareObligation(ex.ctx, p, ModeInt, opt)
+			runObligation(p, opt)
+			if p.Result != "unsat" {
+				return false
+			}
+		}
+	}
+	return true
+}
+
+func writeReplayFile(path, prop string, o *Obligation, rep map[string]interface{}, reproduced bool) {
+	m := map[string]interface{}{
+		"property":      prop,
+		"obligation":    shortKey(o.Fn) + "/" + o.Name,
+		"function":      shortKey(o.Fn),
+		"clause":        o.Clause,
+		"at":            o.Pos,
+		"solver_result": o.Result,
+		"backend":       o.Backend,
+		"solver_output": firstLines(o.Output, 40),
+		"model":         o.Model,
+		"reproduced":    reproduced,
+		"replay":        rep,
+	}
+	b, _ := json.MarshalIndent(m, "", " ")
+	os.WriteFile(path, b, 0o644)
+}
